@@ -106,6 +106,16 @@ def exe_worker(job):
                     outs.append((st["name"], b"", "error:%s" % type(e).__name__))
                 nruns += 1
             ref = outs[0]
+            if kind != "loop":
+                # -t only adds trace text: the exit status must not change
+                try:
+                    rt = subprocess.run([os.path.join(cli, "hexsim"), "-t"] + opt + [p], input=inp, stdout=subprocess.PIPE,
+                                        stderr=subprocess.PIPE, cwd=d, env={"PATH": os.environ.get("PATH", "/usr/bin:/bin")}, timeout=300)
+                    nruns += 1
+                    if rt.returncode != ref[2]:
+                        bad.append(("trace-changes-status", {"image": tag, "untraced": ref[2], "traced": rt.returncode}))
+                except subprocess.TimeoutExpired:
+                    pass
             for o in outs[1:]:
                 if (o[1], o[2]) != (ref[1], ref[2]):
                     bad.append(("host-state:%s" % ("cut-short-status" if kind == "loop" else ("uninitialised-memory" if kind == "rbw" else "defined-program")),
@@ -171,8 +181,10 @@ def run(tier, replay=None):
         o = r["out"]
         rbw_total += o["reads_before_write"]
         if o["ended"] == "mismatch":
-            v.violation("inproc:unwritten-memory-not-zero", {"image": tag, "fill": fill, "mismatch": o["mismatch"],
-                                                             "reads_before_write": o["reads_before_write"]})
+            # with clean (zero) storage a divergence cannot come from uninitialised memory
+            key = "inproc:unwritten-memory-not-zero" if fill != 0 else ("inproc:tracing-changes-state" if trace else "inproc:diverges-from-reference")
+            v.violation(key, {"image": tag, "fill": fill, "trace": trace, "mismatch": o["mismatch"],
+                              "reads_before_write": o["reads_before_write"]})
             continue
         key = (i, mc)
         groups.setdefault(key, []).append((fill, trace, o))
